@@ -1,107 +1,9 @@
 ------------------------------ MODULE Attributes ------------------------------
-(* Validation of an element's attribute set against attribute uses, value      *)
-(* constraints and an attribute wildcard (Element Locally Valid (Complex Type) *)
-(* clauses 3 and 4, Attribute Locally Valid (Use), Wildcard allows Namespace   *)
-(* Name; processContents strict / lax / skip).                                 *)
-(*                                                                           *)
-(* Names: "n0" unqualified x, "nT" target-namespace y (a global attribute t:y  *)
-(* exists), "nA" x in a declared foreign namespace (a global a:x exists),      *)
-(* "nF" x in a namespace no schema document knows.                             *)
-(* All declared / global attributes have type xs:integer; an instance value is *)
-(* a class: "v1" (1), "v01" (01: the same value in another lexical form),      *)
-(* "v2" (another value), "vx" (not an integer); value constraints are "1".     *)
-EXTENDS XsdBase, TLC, Json
+(* The enumeration machine over spec/AttrDefs.tla (definitions and laws): every    *)
+(* (declaration pair, wildcard, attribute set) with the verdict and the decoded      *)
+(* dictionaries.                                                                   *)
+EXTENDS AttrDefs
 
-CONSTANTS Small     \* TRUE: reduced value classes for the undeclarable names
-
-AttrNames == {"n0", "nT", "nA", "nF"}
-NsOf(n) == CASE n = "n0" -> "" [] n = "nT" -> "T" [] n = "nA" -> "A" [] n = "nF" -> "F"
-HasGlobal(n) == n \in {"nT", "nA"}
-
-(* a declaration slot: "none" or [use, vc] *)
-NoDecl == [use |-> "none", vc |-> "none"]
-NoWild == [c |-> "none", pc |-> "none"]
-Decl == {NoDecl} \cup {[use |-> u, vc |-> v] :
-            u \in {"optional"}, v \in {"none", "fixed", "default"}}
-        \cup {[use |-> "required", vc |-> v] : v \in {"none", "fixed"}}
-        \cup {[use |-> "prohibited", vc |-> "none"]}
-Wild == {NoWild} \cup {[c |-> c, pc |-> p] : c \in {"any", "other", "local", "tns"},
-                                            p \in {"strict", "lax", "skip"}}
-ValClass == {"absent", "v1", "v01", "v2", "vx"}
-SmallClass == {"absent", "v1", "vx"}
-Inst == [n0 : ValClass, nT : ValClass,
-         nA : IF Small THEN SmallClass ELSE ValClass, nF : IF Small THEN SmallClass ELSE ValClass]
-
-IsInt(v)  == v \in {"v1", "v01", "v2"}
-ValueOf(v) == IF v = "v01" THEN "v1" ELSE v                \* value space: 01 = 1
-Admits(w, ns) == CASE w.c = "none"  -> FALSE
-                   [] w.c = "any"   -> TRUE
-                   [] w.c = "other" -> ns \notin {"", "T"}
-                   [] w.c = "local" -> ns = ""
-                   [] w.c = "tns"   -> ns = "T"
-
-(* the attribute USE of a slot: a prohibited use is no use at all *)
-Use(d) == IF d.use = "prohibited" THEN NoDecl ELSE d
-DeclOf(d0, dT, n) == CASE n = "n0" -> Use(d0) [] n = "nT" -> Use(dT) [] OTHER -> NoDecl
-
-(* one present attribute *)
-AttrOK(d0, dT, w, n, v) ==
-  LET d == DeclOf(d0, dT, n) IN
-  IF d # NoDecl
-    THEN IsInt(v) /\ (d.vc = "fixed" => ValueOf(v) = "v1")
-    ELSE /\ w # NoWild /\ Admits(w, NsOf(n))
-         /\ CASE w.pc = "skip"   -> TRUE
-              [] w.pc = "lax"    -> HasGlobal(n) => IsInt(v)
-              [] w.pc = "strict" -> HasGlobal(n) /\ IsInt(v)
-
-ValidAttrs(d0, dT, w, i) ==
-  /\ \A n \in AttrNames : i[n] # "absent" => AttrOK(d0, dT, w, n, i[n])
-  /\ Use(d0).use = "required" => i.n0 # "absent"
-  /\ Use(dT).use = "required" => i.nT # "absent"
-
-(* decoded attribute dictionary of a VALID element: name -> "int1" | "int2" |   *)
-(* "raw:<class>" (text kept as is: no declaration governs the value)           *)
-DecodedVal(d0, dT, w, n, v) ==
-  IF DeclOf(d0, dT, n) # NoDecl \/ (w # NoWild /\ w.pc # "skip" /\ HasGlobal(n))
-    THEN (IF ValueOf(v) = "v1" THEN "int1" ELSE "int2")
-    ELSE v
-(* an attribute that is only admitted by a skip wildcard is not processed and    *)
-(* (with the default options) not reported in the decoded data                 *)
-Skipped(d0, dT, w, n) == DeclOf(d0, dT, n) = NoDecl /\ w.pc = "skip"
-Decoded(d0, dT, w, i, useDefaults) ==
-  LET present == {n \in AttrNames : i[n] # "absent" /\ ~Skipped(d0, dT, w, n)}
-      added == {n \in {"n0", "nT"} : i[n] = "absent" /\
-                  LET d == DeclOf(d0, dT, n) IN
-                    d # NoDecl /\ (d.vc = "fixed" \/ (d.vc = "default" /\ useDefaults))}
-  IN [n \in present \cup added |->
-        IF n \in present THEN DecodedVal(d0, dT, w, n, i[n]) ELSE "int1"]
-
-------------------------------------------------------------------------------
-(* Laws (obligation A) *)
-WiderWildcardAdmitsMore ==      \* "any" admits whatever a narrower constraint admits
-  \A d0 \in Decl : \A dT \in Decl : \A p \in {"strict", "lax", "skip"} :
-    \A c \in {"other", "local", "tns"} : \A i \in [n0 : {"absent", "v1"}, nT : {"absent", "vx"},
-                                                  nA : {"absent", "v1"}, nF : {"absent", "v1"}] :
-      ValidAttrs(d0, dT, [c |-> c, pc |-> p], i) => ValidAttrs(d0, dT, [c |-> "any", pc |-> p], i)
-SkipAdmitsMoreThanLaxThanStrict ==
-  \A d0 \in Decl : \A dT \in Decl : \A c \in {"any", "other", "local", "tns"} :
-    \A i \in [n0 : {"absent", "vx"}, nT : {"absent", "vx", "v1"},
-              nA : {"absent", "vx", "v1"}, nF : {"absent", "v1"}] :
-      /\ ValidAttrs(d0, dT, [c |-> c, pc |-> "strict"], i) => ValidAttrs(d0, dT, [c |-> c, pc |-> "lax"], i)
-      /\ ValidAttrs(d0, dT, [c |-> c, pc |-> "lax"], i) => ValidAttrs(d0, dT, [c |-> c, pc |-> "skip"], i)
-(* restricting uses (optional -> required, adding fixed) only narrows: feeds C14 *)
-TighterUseNarrows ==
-  \A dT \in Decl : \A w \in Wild : \A i \in [n0 : ValClass, nT : {"absent", "v1"},
-                                             nA : {"absent"}, nF : {"absent"}] :
-    /\ ValidAttrs([use |-> "required", vc |-> "none"], dT, w, i)
-         => ValidAttrs([use |-> "optional", vc |-> "none"], dT, w, i)
-    /\ ValidAttrs([use |-> "optional", vc |-> "fixed"], dT, w, i)
-         => ValidAttrs([use |-> "optional", vc |-> "none"], dT, w, i)
-ASSUME WiderWildcardAdmitsMore
-ASSUME SkipAdmitsMoreThanLaxThanStrict
-ASSUME TighterUseNarrows
-
-------------------------------------------------------------------------------
 (* decoded dictionary as a set of <<name, value>> (meaningful for valid elements) *)
 DecSeq(f) == {<<n, f[n]>> : n \in DOMAIN f}
 VARIABLES d0, dT, w, inst
